@@ -736,7 +736,64 @@ def swan_header_precision(repo, rep):
         raise AnalysisError(f"write_header: loops over {sorted(set(need) - seen)} not found")
 
 
+def time_and_missing(repo, rep):
+    """R-C11-21: no writer asks for a time variable narrower than 64 bits (float32 days resolve 84 s; the reader then returns other time stamps).
+    R-C11-22: a writer whose format can express a missing value does not replace missing data by a number before writing (to_funwave prints nan, the
+    reader gets nan back): filling with a constant turns 'missing' into 'zero energy'.  to_octopus is exempt by table: its format has an explicit missing
+    value token and the fill value is that token."""
+    rep.rule("R-C11-21", "time encodings requested by the writers keep 64-bit precision (no dtype float32 / int32 / int16 on the time variable)")
+    n21 = 0
+    for m in repo.modules.values():
+        if not m.name.startswith("wavespectra.output"):
+            continue
+        for fi in m.all_funcs():
+            for n in ast.walk(fi.node):
+                tgt = None
+                d = None
+                if isinstance(n, ast.Call) and isinstance(n.func, ast.Attribute) and n.func.attr == "update" and "encoding" in unparse(n.func.value) and n.args:
+                    tgt, d = unparse(n.func.value), n.args[0]
+                elif isinstance(n, ast.Assign) and isinstance(n.targets[0], ast.Subscript) and "encoding" in unparse(n.targets[0].value):
+                    tgt = unparse(n.targets[0])
+                    key = repo.const(fi.module, n.targets[0].slice)
+                    d = ast.Dict(keys=[ast.Constant(value=key)], values=[n.value]) if isinstance(key, str) else None
+                elif isinstance(n, ast.Assign) and isinstance(n.targets[0], ast.Attribute) and n.targets[0].attr == "encoding":
+                    tgt, d = unparse(n.targets[0]), n.value
+                if tgt is None or repo.attrs.TIMENAME not in tgt:
+                    continue
+                n21 += 1
+                dv = repo.const(fi.module, d) if d is not None else None
+                if isinstance(d, ast.Name):
+                    dflt = {a.arg: dd_ for a, dd_ in zip(fi.node.args.args[len(fi.node.args.args) - len(fi.node.args.defaults):], fi.node.args.defaults)}
+                    dv = repo.const(fi.module, dflt[d.id]) if d.id in dflt else dv
+                narrow = isinstance(dv, dict) and str(dv.get("dtype", "")).lower() in ("float32", "f4", "int32", "i4", "int16", "i2", "float16")
+                if narrow:
+                    rep.fail("R-C11-21", fi.file, n.lineno, fi.qualname, unparse(n)[:100],
+                             f"the time variable is written as {dv.get('dtype')}: single precision resolves ~84 s at today's dates (days since 1990), the reader "
+                             "returns time stamps that differ from the ones written", anchor=f"time-encoding-dtype:{fi.short}")
+                else:
+                    rep.ok("R-C11-21", f"{fi.file}:{n.lineno} {fi.short}", unparse(n)[:70], "no narrowing dtype on the time encoding")
+    rep.floor("R-C11-21", "time encodings set by the writers", n21, 2)
+    rep.rule("R-C11-22", "writers do not replace missing values by a number before writing (exempt: to_octopus, whose format has its own missing-value token)")
+    EX = {"wavespectra.output.octopus.to_octopus": "format has an explicit missing-value token (missing_val)"}
+    n22 = 0
+    for m in repo.modules.values():
+        if not m.name.startswith("wavespectra.output"):
+            continue
+        for fi in m.all_funcs():
+            for c in ast.walk(fi.node):
+                if isinstance(c, ast.Call) and (isinstance(c.func, ast.Attribute) and c.func.attr in ("fillna", "nan_to_num") or call_name(c).split(".")[-1] == "nan_to_num"):
+                    n22 += 1
+                    if fi.qualname in EX:
+                        rep.ok("R-C11-22", f"{fi.file}:{c.lineno} {fi.short}", unparse(c)[:60], "exempt: " + EX[fi.qualname], nontrivial=False)
+                    else:
+                        rep.fail("R-C11-22", fi.file, c.lineno, fi.qualname, unparse(c)[:90],
+                                 "missing spectra / bins are replaced by a number before they are written: the file can no longer say 'missing' and the reader returns "
+                                 "zero energy where the dataset had none", anchor=f"writer-fills-missing:{fi.short}")
+    rep.floor("R-C11-22", "fill sites in the writers (the exempt one)", n22, 1)
+
+
 def run(repo, rep, tier):
+    time_and_missing(repo, rep)
     swan_header_precision(repo, rep)
     swan_nodata_and_chunks(repo, rep)
     rep.rule("R-C11-16", "(shared with C05) direction bin widths are taken circularly: the width enters the variance the regridding conserves and the "
